@@ -40,6 +40,23 @@ class KwargsLearner:
         assert i == self.n, "kwargs not handed back"
         self.learned += 1
 
+class InfoLearner:
+    """stateful user learner reporting diagnostics through CobaContext.learning_info from score/predict/learn"""
+    def __init__(self, tag='i'): self.tag = tag; self.scored = 0; self.learns = 0; self.preds = 0
+    @property
+    def params(self): return {'family':'info_double','tag':self.tag}
+    def score(self, context, actions, action):
+        self.scored += 1
+        CobaContext.learning_info['n_scored'] = self.scored
+        return 1/len(actions)
+    def predict(self, context, actions):
+        self.preds += 1
+        CobaContext.learning_info['n_preds'] = self.preds
+        return actions[(self.preds + self.learns) % len(actions)], 1/len(actions)
+    def learn(self, context, action, reward, probability):
+        self.learns += 1
+        CobaContext.learning_info['n_learns'] = self.learns
+
 class CountingEval:
     """custom evaluator: yields what it saw; exposes whether the learner arrived pristine"""
     def __init__(self, tag='c'): self.tag = tag
@@ -93,11 +110,20 @@ def prog_one_env_two_evals():
 def prog_logged_shuffle():
     envs = Environments(ListEnv('ls', n=5)).logged(RandomLearner(seed=2)).shuffle(n=2)
     return (envs, [BanditEpsilonLearner(.1)], [SequentialCB(learn='off', eval='ips')]), {}
+def prog_info_mix():
+    env = Environments(ListEnv('im', n=6)).logged(RandomLearner(seed=2))[0]
+    env2 = ListEnv('im2', n=3)
+    return ([(env, InfoLearner('a'), RejectionCB(record=['reward','action'])), (env, BanditEpsilonLearner(.1, seed=7), SequentialCB(learn='off', eval='on')),
+             (env2, InfoLearner('b'), SequentialCB()), (env2, RandomLearner(seed=4), SequentialCB()), (env2, RandomLearner(seed=5), CountingEval('z'))],), {}
+def prog_rejection_seeded():
+    envs = Environments(ListEnv('rs', n=8)).logged(RandomLearner(seed=2))
+    return (envs, [BanditEpsilonLearner(.1, seed=1), RandomLearner(seed=3), InfoLearner('r')], [RejectionCB(seed=3)]), {}
 def prog_single():
     return (Environments(ListEnv('s')), RandomLearner(), SequentialCB()), {}
 
 PROGRAMS = {'cross':prog_cross, 'chunk_shuffle':prog_chunk_shuffle, 'cache_take':prog_cache_take, 'tuples_shared':prog_tuples_shared,
-            'logged_rejection':prog_logged_rejection, 'custom_chunked':prog_custom_chunked, 'one_env_two_evals':prog_one_env_two_evals, 'logged_shuffle':prog_logged_shuffle, 'single':prog_single}
+            'logged_rejection':prog_logged_rejection, 'custom_chunked':prog_custom_chunked, 'one_env_two_evals':prog_one_env_two_evals, 'logged_shuffle':prog_logged_shuffle, 'single':prog_single,
+            'info_mix':prog_info_mix, 'rejection_seeded':prog_rejection_seeded}
 
 # ---------------------------------------------------------------------------------------------------
 def reset_context():
@@ -207,7 +233,7 @@ def run_real_subprocess(prog, seed, processes, mc, mt, result_file=None, timeout
     d = tempfile.mkdtemp(prefix='vf_real_')
     try:
         f = os.path.join(d,'run_real_main.py'); open(f,'w').write(code)
-        env = dict(os.environ); env['PYTHONPATH'] = '/repo:' + os.path.dirname(os.path.dirname(os.path.abspath(__file__)))
+        env = dict(os.environ); env['PYTHONPATH'] = os.environ.get('VERIF_REPO','/repo') + ':' + os.path.dirname(os.path.dirname(os.path.abspath(__file__)))
         out = subprocess.run([sys.executable, '-W', 'ignore', f], capture_output=True, text=True, timeout=timeout, env=env, cwd=d)
         line = next((l for l in out.stdout.splitlines() if l.startswith('RESULT')), None)
         if line is None: raise RuntimeError(f"real run produced no result: {out.stderr[-800:]}")
